@@ -315,7 +315,8 @@ Proof.
     rewrite (class_size_count n rep q (nn v) R Hv), N.eqb_refl.
     eexists. split; [reflexivity|]. exists n, es, rank, rep. auto.
   - (* reset *)
-    cbn [step] in H. rewrite reset_is_new in H. inversion H; subst s' rv. clear H.
+    cbn [step] in H. unfold reset_call in H. destruct (alloc_overflow m); [discriminate|].
+    rewrite reset_is_new in H. inversion H; subst s' rv. clear H.
     destruct r; cbn [ret_eqb] in HR; try discriminate. cbn [spec_op].
     eexists. split; [reflexivity|]. apply rel_new.
 Qed.
@@ -379,8 +380,9 @@ Proof.
   - pose proof (step_outcome _ _ _ _ _ (Size (nn v)) G) as O. cbn [in_range] in O.
     unfold inr_. rewrite (r_len _ _ _ R).
     destruct (nn v <? n); [destruct O as (s' & r & E)|]; rewrite ?E, ?O; reflexivity.
-  - pose proof (step_outcome _ _ _ _ _ (Reset (nn m)) G) as O. cbn [in_range] in O.
-    destruct O as (s' & r & E). rewrite E. reflexivity.
+  - pose proof (step_outcome _ _ _ _ _ (Reset m) G) as O. cbn [in_range] in O.
+    unfold reset_refused. rewrite <- alloc_overflow_pow.
+    destruct (alloc_overflow m); cbn [negb] in O; [|destruct O as (s' & r & E)]; rewrite ?E, ?O; reflexivity.
 Qed.
 
 Lemma rel_opt_snap s q sn :
